@@ -18,6 +18,8 @@ import (
 	"sync/atomic"
 	"time"
 
+	"github.com/cenkalti/rain/v2/internal/announcer"
+	"github.com/cenkalti/rain/v2/internal/logger"
 	"github.com/cenkalti/rain/v2/internal/tracker"
 	"github.com/cenkalti/rain/v2/internal/tracker/udptracker"
 )
@@ -36,7 +38,13 @@ import (
 //         hdr (8 bytes only) | err (action 3, bencoded reason) | errg (action 3, garbage) | short (4 bytes)
 //   wait                           (thorough) sleep until 16 s after the latest first copy of a datagram: every unanswered
 //         transaction is retransmitted once (BEP 15: 15 s), none twice (45 s)
-//   close                          Transport.Close()
+//   close                          Transport.Close() (a running periodical announcer is closed first)
+//   pstart t=<torrent> d=<dest>    one real announcer.PeriodicalAnnouncer per case, on a tracker.Tracker that hands every
+//         Announce to the real UDPTracker; its calls get the ids 100, 101, … (first says started; after an error it
+//         retries by itself after 15..45 ms, event none); interval of the replies >= 1000 s: one announce per reply
+//   pcomplete                      close(completedC): an announce in flight is cancelled by the announcer, `completed` follows
+//         (refused as bad-op while that announce is the one a connect runs under: the implementation races there)
+//   pclose                         PeriodicalAnnouncer.Close()
 //
 // Observation of every op, taken when the expected effects have arrived (or a bound of 2 s has passed):
 //   done=<r>:<class>,…   calls that returned: ok/<interval>/<#peers>/<first peer> | cancelled (own context) |
@@ -46,6 +54,7 @@ import (
 //   rtx=<n>              goroutines inside udptracker.retryTransaction = transactions with a retransmission scheduled
 //   cn=<n>               goroutines inside udptracker.resolveDestinationAndConnect = connects in flight
 //   nt=<n>               (reply only, if > 0) targets that had no transaction id yet
+//   pc=<r>,…             (if any) calls the periodical announcer started during the op
 // Lists are sorted; no times, no transaction ids are printed.
 
 func init() {
@@ -81,6 +90,38 @@ type usReq struct {
 	txid          uint32
 	hasTx         bool
 	resultArrived bool
+	periodic      bool
+}
+
+// usPeriodic is the one PeriodicalAnnouncer of a case.
+type usPeriodic struct {
+	a          *announcer.PeriodicalAnnouncer
+	t, d       int
+	n          atomic.Int32 // calls so far (ids 100+n)
+	cur        *usReq
+	completedC chan struct{}
+	completed  bool
+	closed     bool
+}
+
+// usPTracker is the tracker.Tracker the announcer talks to: the real UDPTracker with a counting context.
+type usPTracker struct {
+	w    *usWorld
+	real *udptracker.UDPTracker
+	p    *usPeriodic
+}
+
+func (x *usPTracker) URL() string { return x.real.URL() }
+
+func (x *usPTracker) Announce(ctx context.Context, req tracker.AnnounceRequest) (*tracker.AnnounceResponse, error) {
+	r := 100 + int(x.p.n.Add(1)) - 1
+	rq := &usReq{r: r, t: x.p.t, d: x.p.d, ev: req.Event, ctx: &usCtx{Context: ctx}, cancel: func() {}, periodic: true}
+	x.w.evC <- usEvent{isCall: true, rq: rq, r: r}
+	req.Torrent.BytesDownloaded = int64(r)
+	resp, err := x.real.Announce(rq.ctx, req)
+	rq.got.Store(true)
+	x.w.evC <- usEvent{isRes: true, r: r, resp: resp, err: err}
+	return resp, err
 }
 
 type usDest struct {
@@ -95,7 +136,9 @@ type usDest struct {
 }
 
 type usEvent struct {
-	isRes bool
+	isRes  bool
+	isCall bool
+	rq     *usReq
 	// datagram
 	d   int
 	buf []byte
@@ -122,6 +165,12 @@ type usWorld struct {
 	rx   []string
 	expD map[int]bool
 	expX map[string]bool
+	expC int // calls the periodical announcer is expected to start
+	pcs  []string
+	note string
+	p    *usPeriodic
+
+	lastRtx, lastCn int
 }
 
 const usBound = 2 * time.Second
@@ -182,6 +231,10 @@ func (w *usWorld) dest(d int) *usDest {
 }
 
 func (w *usWorld) close() {
+	if w.p != nil && !w.p.closed {
+		w.p.a.Close()
+		w.p.closed = true
+	}
 	for _, rq := range w.reqs {
 		rq.cancel()
 	}
@@ -270,6 +323,17 @@ func usClass(rq *usReq, resp *tracker.AnnounceResponse, err error) string {
 
 // absorb records one event in the observation of the current op.
 func (w *usWorld) absorb(e usEvent) {
+	if e.isCall {
+		w.reqs[e.r] = e.rq
+		w.p.cur = e.rq
+		w.pcs = append(w.pcs, fmt.Sprint(e.r))
+		if w.expC > 0 {
+			w.expC--
+		}
+		w.handover(e.rq)
+		w.onRequest(e.rq)
+		return
+	}
 	if e.isRes {
 		rq := w.reqs[e.r]
 		rq.resultArrived = true
@@ -347,6 +411,12 @@ func (w *usWorld) expRtxCn() (int, int) {
 var usMaxSettle time.Duration
 
 func (w *usWorld) settle(extra string) string {
+	w.await()
+	return w.render(extra)
+}
+
+// await waits for the expected events and goroutine counts.
+func (w *usWorld) await() {
 	t0 := time.Now()
 	defer func() {
 		if d := time.Since(t0); d > usMaxSettle {
@@ -357,7 +427,7 @@ func (w *usWorld) settle(extra string) string {
 		}
 	}()
 	dl := time.Now().Add(w.timeout())
-	for len(w.expD) > 0 || len(w.expX) > 0 {
+	for len(w.expD) > 0 || len(w.expX) > 0 || w.expC > 0 {
 		rem := time.Until(dl)
 		if rem <= 0 {
 			w.markSlow()
@@ -394,21 +464,91 @@ func (w *usWorld) settle(extra string) string {
 		}
 		break
 	}
+	w.lastRtx, w.lastCn = rtx, cn
+}
+
+// render prints what has happened since the last observation.
+func (w *usWorld) render(extra string) string {
+	rtx, cn := w.lastRtx, w.lastCn
 	sort.Slice(w.done, func(i, j int) bool { return atoi(strings.SplitN(w.done[i], ":", 2)[0]) < atoi(strings.SplitN(w.done[j], ":", 2)[0]) })
 	sort.Strings(w.rx)
-	o := fmt.Sprintf("done=%s rx=%s rtx=%d cn=%d%s", joinOrDash(w.done), joinOrDash(w.rx), rtx, cn, extra)
-	w.done, w.rx = nil, nil
+	o := fmt.Sprintf("done=%s rx=%s rtx=%d cn=%d%s", joinOrDash(w.done), joinOrDash(w.rx), rtx, cn, extra+w.note)
+	if len(w.pcs) > 0 {
+		o += " pc=" + strings.Join(w.pcs, ",")
+	}
+	w.done, w.rx, w.pcs, w.note, w.expC = nil, nil, nil, "", 0
 	w.expD, w.expX = map[int]bool{}, map[string]bool{}
 	return o
 }
 
-func (w *usWorld) expectDone(rq *usReq) {
+// expectDone: call rq is about to return; isErr = with an error it did not cause itself (the periodical announcer
+// then announces again after its back-off).
+func (w *usWorld) expectDone(rq *usReq, isErr bool) {
 	if !rq.fin {
 		rq.fin = true
 		if !rq.resultArrived {
 			w.expD[rq.r] = true
 		}
+		if isErr && rq.periodic && w.p != nil && !w.p.closed && w.p.cur == rq {
+			w.expC++
+		}
 	}
+}
+
+// handover waits until the run loop has taken the request of rq (or the call is over).
+func (w *usWorld) handover(rq *usReq) {
+	dl := time.Now().Add(w.timeout())
+	for rq.ctx.n.Load() < 2 && !rq.got.Load() {
+		if time.Now().After(dl) {
+			w.markSlow()
+			w.note += " handover-timeout"
+			return
+		}
+		time.Sleep(20 * time.Microsecond)
+	}
+}
+
+// onRequest: what the request of rq makes the transport do (expectations only).
+func (w *usWorld) onRequest(rq *usReq) {
+	x := w.dests[rq.d]
+	switch {
+	case w.tpClosed:
+		w.expectDone(rq, true)
+	case x.state == 0:
+		x.state, x.opener, x.queued = 1, rq.r, []int{rq.r}
+		rq.state = 1
+		w.expX[fmt.Sprintf("c%d.1", rq.d)] = true
+	case x.state == 2:
+		rq.state, rq.inTable = 2, true
+		w.expX[fmt.Sprintf("a%d.1", rq.r)] = true
+	default:
+		rq.state = 1
+		x.queued = append(x.queued, rq.r)
+	}
+}
+
+// onCancel: the context of rq is cancelled by its owner (harness or announcer).
+func (w *usWorld) onCancel(rq *usReq) {
+	if rq.fin {
+		return
+	}
+	rq.ownCancelled = true
+	x := w.dests[rq.d]
+	if x.state == 1 && x.opener == rq.r {
+		for _, q := range x.queued {
+			w.expectDone(w.reqs[q], q != rq.r)
+		}
+		x.state, x.queued = 0, nil
+	} else if rq.state == 1 {
+		rq.cancelledInQ = true
+	}
+	w.expectDone(rq, false)
+}
+
+// isOpener: rq is the call a connect in flight runs under.
+func (w *usWorld) isOpener(rq *usReq) bool {
+	x := w.dests[rq.d]
+	return !rq.fin && x.state == 1 && x.opener == rq.r
 }
 
 func usAnnounceReply(txid uint32, r int) []byte {
@@ -489,7 +629,7 @@ func execUdpShared(ops []string) []string {
 		case "ann":
 			r, t, d := atoi(m["r"]), atoi(m["t"]), atoi(m["d"])
 			ev, okEv := usEvNames[m["ev"]]
-			if _, dup := w.reqs[r]; dup || !okEv || d < 0 || d > 3 {
+			if _, dup := w.reqs[r]; dup || !okEv || d < 0 || d > 3 || r >= 100 {
 				obs = append(obs, "bad-op")
 				continue
 			}
@@ -510,51 +650,20 @@ func execUdpShared(ops []string) []string {
 				rq.got.Store(true)
 				w.evC <- usEvent{isRes: true, r: r, resp: resp, err: err}
 			}()
-			// hand-over barrier
-			extra := ""
-			dl := time.Now().Add(w.timeout())
-			for rq.ctx.n.Load() < 2 && !rq.got.Load() {
-				if time.Now().After(dl) {
-					w.markSlow()
-					extra = " handover-timeout"
-					break
-				}
-				time.Sleep(20 * time.Microsecond)
-			}
-			switch {
-			case w.tpClosed:
-				w.expectDone(rq)
-			case x.state == 0:
-				x.state, x.opener, x.queued = 1, r, []int{r}
-				rq.state = 1
-				w.expX[fmt.Sprintf("c%d.1", d)] = true
-			case x.state == 2:
-				rq.state, rq.inTable = 2, true
-				w.expX[fmt.Sprintf("a%d.1", r)] = true
-			default:
-				rq.state = 1
-				x.queued = append(x.queued, r)
-			}
-			obs = append(obs, w.settle(extra))
+			w.handover(rq)
+			w.onRequest(rq)
+			obs = append(obs, w.settle(""))
 		case "cancel":
+			if atoi(m["r"]) >= 100 {
+				obs = append(obs, "bad-op") // the announcer owns the contexts of its calls
+				continue
+			}
 			rq, ok := w.reqs[atoi(m["r"])]
 			if !ok {
 				obs = append(obs, w.settle(""))
 				continue
 			}
-			if !rq.fin {
-				rq.ownCancelled = true
-				x := w.dests[rq.d]
-				if x.state == 1 && x.opener == rq.r {
-					for _, q := range x.queued {
-						w.expectDone(w.reqs[q])
-					}
-					x.state, x.queued = 0, nil
-				} else if rq.state == 1 {
-					rq.cancelledInQ = true
-				}
-				w.expectDone(rq)
-			}
+			w.onCancel(rq)
 			rq.cancel()
 			obs = append(obs, w.settle(""))
 		case "reply":
@@ -631,7 +740,7 @@ func execUdpShared(ops []string) []string {
 					} else {
 						x.state = 0
 						for _, q := range x.queued {
-							w.expectDone(w.reqs[q])
+							w.expectDone(w.reqs[q], true)
 						}
 					}
 					x.queued = nil
@@ -642,7 +751,7 @@ func execUdpShared(ops []string) []string {
 						continue
 					}
 					rq.inTable = false
-					w.expectDone(rq)
+					w.expectDone(rq, !good)
 				}
 			}
 			if noEffect {
@@ -676,16 +785,73 @@ func execUdpShared(ops []string) []string {
 			obs = append(obs, w.settle(""))
 		case "close":
 			if !w.tpClosed {
+				if w.p != nil && !w.p.closed {
+					if w.p.cur != nil {
+						w.onCancel(w.p.cur)
+					}
+					w.p.a.Close()
+					w.p.closed = true
+					w.await() // the announcer's cancellation has done its work before the transport goes
+				}
 				w.tp.Close()
 				w.tpClosed = true
 				for _, rq := range w.reqs {
-					w.expectDone(rq)
+					w.expectDone(rq, false)
 					rq.inTable = false
 				}
 				for _, x := range w.dests {
 					x.state, x.queued = 0, nil
 				}
 			}
+			obs = append(obs, w.settle(""))
+		case "pstart":
+			t, d := atoi(m["t"]), atoi(m["d"])
+			if w.p != nil || d < 0 || d > 3 || w.tpClosed {
+				obs = append(obs, "bad-op")
+				continue
+			}
+			x := w.dest(d)
+			raw := fmt.Sprintf("udp://127.0.0.1:%d/announce", x.port)
+			u, _ := url.Parse(raw)
+			p := &usPeriodic{t: t, d: d, completedC: make(chan struct{})}
+			tor := tracker.Torrent{Port: 6000 + t, BytesLeft: 1000, BytesUploaded: int64(t)}
+			for i := range tor.InfoHash {
+				tor.InfoHash[i] = byte(t)
+				tor.PeerID[i] = byte(0x40 + t)
+			}
+			trk := &usPTracker{w: w, real: udptracker.New(raw, u, w.tp), p: p}
+			p.a = announcer.NewPeriodicalAnnouncer(trk, 50, time.Minute, func() tracker.Torrent { return tor }, p.completedC, make(chan []*net.TCPAddr, 256), logger.New("verif"))
+			p.a.VerifSetBackoff(30*time.Millisecond, 240*time.Millisecond)
+			w.p = p
+			w.expC++
+			go p.a.Run()
+			obs = append(obs, w.settle(""))
+		case "pcomplete":
+			p := w.p
+			if p == nil || p.closed || (p.cur != nil && w.isOpener(p.cur)) {
+				obs = append(obs, "bad-op")
+				continue
+			}
+			if !p.completed {
+				p.completed = true
+				if p.cur != nil {
+					w.onCancel(p.cur) // the announcer cancels an announce in flight
+				}
+				w.expC++
+				close(p.completedC)
+			}
+			obs = append(obs, w.settle(""))
+		case "pclose":
+			p := w.p
+			if p == nil || p.closed {
+				obs = append(obs, "bad-op")
+				continue
+			}
+			if p.cur != nil {
+				w.onCancel(p.cur)
+			}
+			p.a.Close()
+			p.closed = true
 			obs = append(obs, w.settle(""))
 		default:
 			obs = append(obs, "bad-op")
@@ -698,7 +864,9 @@ func execUdpShared(ops []string) []string {
 
 type usGenReq struct {
 	d, t  int
-	state int // 1 queued 2 sent 3 finished
+	state int  // 1 queued 2 sent 3 finished
+	ok    bool // finished by a good reply
+	own   bool // finished by its owner
 }
 
 func genUdpShared(r *Rng, n int, tier string) []Case {
@@ -797,8 +965,57 @@ func genUdpShared(r *Rng, n int, tier string) []Case {
 					}
 				}
 			}
-			g.state = 3
+			g.state, g.own = 3, true
 		}
+		answer := func(id int, kind string) {
+			if g, ok := reqs[id]; ok && g.state == 2 && kind != "wtx" && kind != "short" {
+				g.state, g.ok = 3, kind == "ok" || kind == "dup"
+			}
+		}
+		// the periodical announcer (at most one per case): calls 100, 101, …; pSync starts the retry after a failure
+		pOn, pClosed, pDone, pT, pD, pK, pCur := false, false, false, 0, 0, 0, -1
+		pCall := func() {
+			id := 100 + pK
+			pK++
+			g := &usGenReq{d: pD, t: pT}
+			switch {
+			case dst[pD] == 0:
+				dst[pD], opener[pD], g.state = 1, id, 1
+			case dst[pD] == 1:
+				g.state = 1
+			default:
+				g.state = 2
+			}
+			reqs[id] = g
+			order = append(order, id)
+			pCur = id
+		}
+		pSync := func() {
+			for k := 0; k < 3 && pOn && !pClosed && !closed && pCur >= 0; k++ {
+				if g := reqs[pCur]; g.state == 3 && !g.ok && !g.own {
+					pCall()
+				} else {
+					break
+				}
+			}
+		}
+		abort := func(id int) { // the owner of call id gives up
+			g := reqs[id]
+			if g.state == 3 {
+				return
+			}
+			if g.state == 1 && dst[g.d] == 1 && opener[g.d] == id {
+				dst[g.d] = 0
+				for _, h := range reqs {
+					if h.d == g.d && h.state == 1 {
+						h.state = 3
+					}
+				}
+			}
+			g.state, g.own = 3, true
+		}
+		wantP := r.Chance(20)
+		pAt := r.Intn(5)
 		steps := r.Range(3, 14)
 		if r.Chance(25) {
 			// the shape "k announces queue behind one connect, then something happens to the connect"
@@ -819,6 +1036,27 @@ func genUdpShared(r *Rng, n int, tier string) []Case {
 			}
 		}
 		for s := 0; s < steps; s++ {
+			pSync()
+			if wantP && !pOn && !closed && s >= pAt {
+				pOn, pT, pD = true, r.Range(1, nT), r.Intn(nD)
+				ops = append(ops, fmt.Sprintf("pstart t=%d d=%d", pT, pD))
+				pCall()
+				continue
+			}
+			if pOn && !pClosed && !closed && r.Chance(12) {
+				g := reqs[pCur]
+				if r.Chance(35) {
+					ops = append(ops, "pclose")
+					abort(pCur)
+					pClosed = true
+				} else if !pDone && !(g.state == 1 && dst[g.d] == 1 && opener[g.d] == pCur) {
+					ops = append(ops, "pcomplete")
+					abort(pCur)
+					pDone = true
+					pCall()
+				}
+				continue
+			}
 			x := r.Intn(100)
 			switch {
 			case x < 28 && next < 9:
@@ -842,9 +1080,7 @@ func genUdpShared(r *Rng, n int, tier string) []Case {
 				}
 				kind := kindsAnn[r.Intn(len(kindsAnn))]
 				ops = append(ops, fmt.Sprintf("reply x=a%d:%s", id, kind))
-				if reqs[id].state == 2 && kind != "wtx" && kind != "short" {
-					reqs[id].state = 3
-				}
+				answer(id, kind)
 			case x < 78:
 				// burst: every outstanding announce of one destination answered back to back, strays in between
 				d := r.Intn(nD)
@@ -862,9 +1098,7 @@ func genUdpShared(r *Rng, n int, tier string) []Case {
 						kind = kindsAnn[r.Intn(len(kindsAnn))]
 					}
 					els = append(els, fmt.Sprintf("a%d:%s", id, kind))
-					if kind != "wtx" && kind != "short" {
-						g.state = 3
-					}
+					answer(id, kind)
 				}
 				if r.Chance(20) {
 					els = append(els, fmt.Sprintf("c%d:%s", d, r.PickS("ok", "dup", "err")))
@@ -878,21 +1112,21 @@ func genUdpShared(r *Rng, n int, tier string) []Case {
 				var ok bool
 				switch r.Intn(6) {
 				case 0, 1:
-					id, ok = pick(func(id int, g *usGenReq) bool { return g.state == 1 && dst[g.d] == 1 && opener[g.d] == id })
+					id, ok = pick(func(id int, g *usGenReq) bool { return id < 100 && g.state == 1 && dst[g.d] == 1 && opener[g.d] == id })
 				case 2:
-					id, ok = pick(func(id int, g *usGenReq) bool { return g.state == 1 && opener[g.d] != id })
+					id, ok = pick(func(id int, g *usGenReq) bool { return id < 100 && g.state == 1 && opener[g.d] != id })
 				case 3, 4:
-					id, ok = pick(func(_ int, g *usGenReq) bool { return g.state == 2 })
+					id, ok = pick(func(id int, g *usGenReq) bool { return id < 100 && g.state == 2 })
 				}
 				if !ok && r.Chance(40) {
-					id, ok = pick(func(_ int, g *usGenReq) bool { return true })
+					id, ok = pick(func(id int, _ *usGenReq) bool { return id < 100 })
 				}
 				if ok {
 					cancel(id)
 				}
 			case x < 93:
 				ops = append(ops, "close")
-				closed = true
+				closed, pClosed = true, true
 				for _, g := range reqs {
 					g.state = 3
 				}
@@ -905,8 +1139,8 @@ func genUdpShared(r *Rng, n int, tier string) []Case {
 				ops = append(ops, fmt.Sprintf("reply x=%s%d:%s", tk, id, kind))
 				if tk == "c" {
 					connReply(id, kind)
-				} else if g, ok := reqs[id]; ok && g.state == 2 {
-					g.state = 3
+				} else {
+					answer(id, kind)
 				}
 			}
 		}
@@ -922,7 +1156,7 @@ func genUdpShared(r *Rng, n int, tier string) []Case {
 			ann(0)
 			ann(0)
 			ops = append(ops, fmt.Sprintf("reply x=a%d:ok", next-2))
-			reqs[next-2].state = 3
+			answer(next-2, "ok")
 		}
 		if longWait {
 			ops = append(ops, "wait")
